@@ -2,4 +2,14 @@
 EXTENDS Context
 C1 == {1}
 C2 == {1, 2}
+\* ---- the "names" instance: name classes that the base instance does not have ----
+\* user operators under the names of the built-ins which the pipeline operator executes itself (push, stack),
+\* used as pipeline steps and as macro bodies; resources registered under names without a colon (one colliding
+\* with a built-in, one unknown otherwise)
+NmOpNames == {"addone", "push", "stack"}
+NmVersions == {1}
+NmPlainResNames == {"addone", "myop"}
+NmBodies == {"push v_1", "stack push=1", "addone", "lit100"}
+NmDefs == {"addone", "myop", "m:x", "push v_1", "stack push=1", "m:x | addone",
+           "push v_1 | addone", "addone | stack push=1", "push v_1 | addone | stack push=1"}
 =============================================================================
